@@ -169,6 +169,38 @@ func pipelineCorpus() []*Prog {
 		add(x86.MOVQ(acc, operand.Mem{Base: p}))
 		add(x86.RET())
 	})
+	mk("rotated loop entered at its condition: a value defined before the loop is first read in the body", func(c *reg.Collection, add func(*ir.Instruction, error), lbl func(string)) {
+		acc, step, limit, p := c.GP64(), c.GP64(), c.GP64(), c.GP64()
+		add(x86.XORQ(acc, acc))
+		add(x86.MOVQ(operand.U32(3), step))
+		add(x86.MOVQ(operand.Mem{Base: p}, limit))
+		add(x86.JMP(operand.LabelRef("cond")))
+		lbl("body")
+		add(x86.ADDQ(step, acc))
+		lbl("cond")
+		add(x86.CMPQ(acc, limit))
+		add(x86.JLT(operand.LabelRef("body")))
+		add(x86.MOVQ(acc, operand.Mem{Base: p}))
+		add(x86.RET())
+	})
+	mk("jump into the middle of a loop, liveness arrives over two back edges", func(c *reg.Collection, add func(*ir.Instruction, error), lbl func(string)) {
+		a, b, d, p := c.GP64(), c.GP64(), c.GP64(), c.GP64()
+		add(x86.MOVQ(operand.U32(1), a))
+		add(x86.MOVQ(operand.U32(2), b))
+		add(x86.MOVQ(operand.U32(5), d))
+		add(x86.JMP(operand.LabelRef("mid")))
+		lbl("outer")
+		add(x86.ADDQ(b, a))
+		lbl("inner")
+		add(x86.DECQ(d))
+		lbl("mid")
+		add(x86.TESTQ(d, d))
+		add(x86.JNE(operand.LabelRef("inner")))
+		add(x86.CMPQ(a, operand.U8(100)))
+		add(x86.JLT(operand.LabelRef("outer")))
+		add(x86.MOVQ(a, operand.Mem{Base: p}))
+		add(x86.RET())
+	})
 	mk("low byte live across high-byte write", func(c *reg.Collection, add func(*ir.Instruction, error), lbl func(string)) {
 		x, y := c.GP64(), c.GP64()
 		add(x86.MOVB(operand.U8(1), x.As8L()))
